@@ -76,14 +76,11 @@ def mapDS (f : Val → Res Val) (d : DS) : DS where
   iterK := d.iterK.mapM (fun kv => do let v ← f kv.2; .ok (kv.1, v))
 
 /-! ### ParMapDataset: `lazy_parallel_map(f, iter(input), buffer_size=b)` run sequentially.
-   Results are yielded only once `b` futures are queued, so when the *source* raises after `m`
-   elements only the first `m - b` results have been handed out; the rest is dropped with the
-   queue (finding F17). -/
+   Since the repair of F17 a failing *source* no longer costs the results that are still queued:
+   they are delivered first, so what is yielded is what `map` yields (the buffer size only shows in
+   the read-ahead, C07/C08). -/
 
-def parMapStream {α β} (f : α → Res β) (b : Nat) (s : Stream α) : Stream β :=
-  match s.err with
-  | none => s.mapM f
-  | some e => Stream.mapMAux f (s.vals.take (s.vals.length - b)) (some e)
+def parMapStream {α β} (f : α → Res β) (_b : Nat) (s : Stream α) : Stream β := s.mapM f
 
 def parMapDS (f : Val → Res Val) (b : Nat) (d : DS) : DS :=
   { mapDS f d with
